@@ -85,13 +85,13 @@ Proof.
 Qed.
 
 (** the XML round trip with Spyne's primitive codecs: no hypothesis left but well-formedness and conformance *)
-Theorem xmlx_rt_spyne : forall (soft : bool) (tns : option text) (U : universe),
+Theorem xmlx_rt_spyne : forall (soft : bool) (U : universe),
   wf_universe U = true ->
   forall n t v ns name nillable, xconf spyne_leaf U n t v = true ->
     (nonelike v = true -> soft && negb nillable = false) ->
-    exists e, enc spyne_leaf (cfg soft tns) U n t ns name v = Ok e
-              /\ dec spyne_leaf (cfg soft tns) U n t nillable (wire e) = Ok (norm U n t v).
+    exists e, enc spyne_leaf U n t ns name v = Ok e
+              /\ dec spyne_leaf (cfg soft) U n t nillable (wire e) = Ok (norm U n t v).
 Proof.
-  intros soft tns U Hwf n t v ns name nillable Hx Hn.
+  intros soft U Hwf n t v ns name nillable Hx Hn.
   apply xmlx_rt; [exact spyne_leaf_sound|exact Hwf|exact Hx|exact Hn].
 Qed.
